@@ -5,6 +5,7 @@
 //	c19 c19dns     -in schedules.ndjson   replay DNSCache_gen schedules against fclient.DNSCache
 //	c19 c19keys    -in schedules.ndjson   replay KeyFetchPool_gen schedules against DirectKeyFetcher.FetchKeys
 //	c19 c19keysizes -in sizes.ndjson      FetchKeys over 1..130 distinct servers: result and termination
+//	c19 c19batches -in schedules.ndjson   overlapping FetchKeys batches / cancelled, expired contexts (one record at a time)
 //	c19 c19tr      -in schedules.ndjson   replay TransportCache_gen schedules against the federation round tripper
 //	c19 c19stress  -in cases.ndjson       one stress case per record (events / verify / dns), results vs sequential
 //
@@ -36,6 +37,10 @@ func main() {
 	})
 	hx.Register("c19keysizes", "FetchKeys over N distinct servers around the worker limit (instant scripted KeyClient)", func(a *hx.Args) error {
 		return hx.ReplayAll(a, func(i int, raw json.RawMessage) hx.Result { return sizesReplay(raw) })
+	})
+	hx.Register("c19batches", "replay KeyFetchBatches_gen / KeyFetchPool_gen context schedules: overlapping batches, callers that go away", func(a *hx.Args) error {
+		a.Par = 1 // one record at a time: quiescence of the whole process is the deadlock / "will not happen" test
+		return hx.ReplayAll(a, func(i int, raw json.RawMessage) hx.Result { return batchesReplay(raw) })
 	})
 	hx.Register("c19tr", "replay TransportCache_gen schedules against destinationTripper", func(a *hx.Args) error {
 		stop, err := trSetup()
